@@ -17,7 +17,7 @@ Lines == Base.lines
 NL == Len(Lines)
 
 Act(a, i, j) == [a |-> a, i |-> i, j |-> j]
-LineKinds == {"blank", "indent", "tabindent", "trail", "fullc", "eolc", "blockc"}
+LineKinds == {"blank", "indent", "tabindent", "trail", "fullc", "eolc", "blockc", "blockc2", "blockc3"}
 LineActs == {Act(a, i, 0) : a \in LineKinds, i \in 1..NL}
 PActs(i, j) == LET p == Lines[i][j] IN
                  (IF p.t \in {"op", "comma"} THEN {Act("spb", i, j), Act("spa", i, j)} ELSE {})
@@ -56,6 +56,8 @@ Phys(i) ==
     (IF Has("blank", i, 0) THEN <<"", "   ">> ELSE <<>>)
     \o (IF Has("fullc", i, 0) THEN <<"; full line comment lda.w #0x12">> ELSE <<>>)
     \o (IF Has("blockc", i, 0) THEN <<"/* a block comment", "   lda.w #0x34 ; over { two lines */">> ELSE <<>>)
+    \o (IF Has("blockc2", i, 0) THEN <<"/* note **/">> ELSE <<>>)
+    \o (IF Has("blockc3", i, 0) THEN <<"/***/", "/**** boxed ****/">> ELSE <<>>)
     \o <<StmtLine(i)>>
 
 RECURSIVE PhysRange(_, _)
